@@ -198,6 +198,25 @@ Proof.
   - apply prefix_length in H. vm_compute in H. lia.
 Qed.
 
+(* (1') the same universe satisfies the premises of C01_static_safety_by_ids: ids determine histories, and every validator but 4
+   is honest in the reading on ids *)
+Lemma TU1_ids : forallb (fun T1 => forallb (fun T2 => negb (tid T1 =? tid T2) || (if tchain_eq_dec T1 T2 then true else false)) members1) members1 = true.
+Proof. vm_compute. reflexivity. Qed.
+Example C01_by_ids_hypotheses_satisfiable :
+  ids_determine_history TU1 /\ (forall v, In v (map fst (c_vals ex_c)) -> ~ In v [4] -> thonest_ids TU1 v) /\ ~ thonest_ids TU1 4.
+Proof.
+  split; [|split].
+  - intros T1 T2 H1 H2 E. pose proof TU1_ids as Hp. rewrite forallb_forall in Hp.
+    specialize (Hp T1 (TU1_members T1 H1)). rewrite forallb_forall in Hp. specialize (Hp T2 (TU1_members T2 H2)).
+    rewrite E, N.eqb_refl in Hp. cbn [negb orb] in Hp. destruct (tchain_eq_dec T1 T2) as [Eq|_]; [exact Eq|discriminate].
+  - intros v Hv Hn. apply thonest_ids_of_thonest. apply TU1_honest; assumption.
+  - intros H. assert (U4 : TU1 (firstn 4 TA)) by (split; [left; apply firstn_prefix|vm_compute; discriminate]).
+    assert (Ub : TU1 TB) by (split; [right; apply prefix_refl|vm_compute; discriminate]).
+    specialize (H (firstn 4 TA) TB U4 Ub). assert (Hne : tid (firstn 4 TA) <> tid TB) by (vm_compute; discriminate).
+    specialize (H Hne). vm_compute in H. specialize (H eq_refl eq_refl). discriminate.
+Qed.
+
 Print Assumptions C01_ids_hypotheses_satisfiable.
+Print Assumptions C01_by_ids_hypotheses_satisfiable.
 Print Assumptions C01_ids_both_views_finalize.
 Print Assumptions C01_ids_gap_all_byzantine.
